@@ -82,6 +82,8 @@ def fold_summary(crate, body, lhid, rhid):
 
 
 def run(ck):
+    if getattr(ck, 'depth', 0) >= 2:
+        return      # a shared run of a shared run: nothing of it is selected, and mutual sharing must end somewhere
     F = ck.facts
     L = F.lib
     oracle = load_oracle('op_tokens.json')
